@@ -57,7 +57,7 @@ func init() {
 				}
 				p := accessPath(argV)
 				fs := canonFacts(ci.Block())
-				ok := (fs["nil != "+p] || fs[p+" != nil"]) && strings.HasSuffix(p, ".ExtractArgs(ctx)")
+				ok := (fs["nil != "+p] || fs[p+" != nil"]) && strings.HasSuffix(p, ".ExtractArgs({EntryContext})")
 				c.Check(ok, fmt.Sprintf("%s / param-check#%d", fnKey(f), n), ci.Pos(), "parameter check on %s guarded by its non-nil test: %v", p, ok)
 			}
 			if n == 0 {
@@ -72,7 +72,7 @@ func init() {
 					_, ok := anyFact(canonFacts(r.Block()), fmt.Sprintf("%d == ", blocked), ".Status()")
 					c.Check(ok, key, r.Pos(), "a controller's result is returned from the loop only when its status is Blocked")
 				} else {
-					c.Check(p == "ctx.RuleCheckResult", key, r.Pos(), "otherwise the context's pass result is returned (got %s)", p)
+					c.Check(p == "{EntryContext}.RuleCheckResult", key, r.Pos(), "otherwise the context's pass result is returned (got %s)", p)
 				}
 			}
 			sleep := c.P.Func("util.Sleep")
@@ -95,7 +95,7 @@ func init() {
 			for _, f := range hotspotCheckers(c.P) {
 				var argP *ssa.Parameter
 				for _, p := range f.Params {
-					if p.Name() == "arg" || (types.IsInterface(p.Type()) && p != f.Params[0] && argP == nil) {
+					if types.IsInterface(p.Type()) && typeBaseName(p.Type()) == "any" && argP == nil {
 						argP = p
 					}
 				}
@@ -150,7 +150,7 @@ func init() {
 							if strings.HasSuffix(p, ".threshold") && !strings.Contains(p, "specificItems") {
 								gen = true
 							}
-							if strings.HasSuffix(p, ".specificItems[arg]#0") && fs[strings.TrimSuffix(p, "#0")+"#1"] {
+							if strings.HasSuffix(p, ".specificItems[{any}]#0") && fs[strings.TrimSuffix(p, "#0")+"#1"] {
 								spec = true
 							}
 						}
@@ -176,10 +176,10 @@ func init() {
 					}
 					fs := canonFacts(r.Block())
 					for k := range fs {
-						if strings.Contains(k, "LoadInt64(") && strings.HasSuffix(k, " <= c.specificItems[arg]#0") && fs["c.specificItems[arg]#1"] {
+						if strings.Contains(k, "LoadInt64(") && strings.HasSuffix(k, ".specificItems[{any}]#0") && strings.Contains(k, " <= ") && fs["{baseTrafficShapingController}.specificItems[{any}]#1"] {
 							okSpec = true
 						}
-						if strings.Contains(k, "LoadInt64(") && strings.HasSuffix(k, " <= c.threshold") && fs["!c.specificItems[arg]#1"] {
+						if strings.Contains(k, "LoadInt64(") && strings.HasSuffix(k, " <= {baseTrafficShapingController}.threshold") && fs["!{baseTrafficShapingController}.specificItems[{any}]#1"] {
 							okGen = true
 						}
 					}
@@ -206,7 +206,7 @@ func init() {
 			for _, r := range returnsOf(valid) {
 				if len(r.Results) == 1 && !isNilConst(r.Results[0]) {
 					fs := canonFacts(r.Block())
-					if fs[fmt.Sprintf("%d == rule.MetricType", qps)] && fs["rule.DurationInSec <= 0"] {
+					if fs[fmt.Sprintf("%d == {Rule}.MetricType", qps)] && fs["{Rule}.DurationInSec <= 0"] {
 						durOK = true
 					}
 				}
@@ -233,10 +233,10 @@ func init() {
 						return
 					}
 					dp := accessPath(b.Y)
-					if strings.HasPrefix(dp, "(c.") && strings.HasSuffix(dp, "durationInSec * 1000)") && durOK {
+					if strings.HasPrefix(dp, "({") && strings.HasSuffix(dp, "durationInSec * 1000)") && durOK {
 						fs := canonFacts(b.Block())
 						conc, _ := constValue(c.P, hsPkg+".Concurrency")
-						_, s1 := anyFact(fs, fmt.Sprintf("%d != c.", conc), "metricType")
+						_, s1 := anyFact(fs, fmt.Sprintf("%d != {", conc), ".metricType")
 						_, s2 := anyFact(fs, "metricType <= "+fmt.Sprint(qps))
 						site := s1 && s2
 						c.Check(site, key, b.Pos(), "divisor %s: non-zero by the durationInSec invariant; site reached only for QPS rules (metricType != Concurrency && metricType <= QPS): %v", dp, site)
@@ -279,15 +279,15 @@ func init() {
 			n := 0
 			eachInstr(pos, func(ins ssa.Instruction) {
 				ia, ok := ins.(*ssa.IndexAddr)
-				if !ok || !strings.HasSuffix(accessPath(ia.X), "ctx.Input.Args") {
+				if !ok || !strings.HasSuffix(accessPath(ia.X), "{EntryContext}.Input.Args") {
 					return
 				}
 				n++
 				ip := accessPath(ia.Index)
 				fs := canonFacts(ia.Block())
 				lo := fs["0 <= "+ip]
-				hi := fs[ip+" < builtin len(ctx.Input.Args)"]
-				neg := strings.Contains(ip, "(builtin len(ctx.Input.Args) + c.BoundParamIndex())") || strings.Contains(ip, "(builtin len(ctx.Input.Args) + c.paramIndex)")
+				hi := fs[ip+" < builtin len({EntryContext}.Input.Args)"]
+				neg := strings.Contains(ip, "(builtin len({EntryContext}.Input.Args) + {baseTrafficShapingController}.BoundParamIndex())") || strings.Contains(ip, "(builtin len({EntryContext}.Input.Args) + {baseTrafficShapingController}.paramIndex)")
 				c.Check(lo && hi && neg, fmt.Sprintf("%s / index#%d", fnKey(pos), n), ia.Pos(), "args[%s] under 0<=idx (%v), idx<len(args) (%v), negative index mapped by len+idx (%v)", ip, lo, hi, neg)
 			})
 			if n == 0 {
@@ -301,7 +301,7 @@ func init() {
 					return
 				}
 				m++
-				c.Check(strings.HasSuffix(accessPath(lk.X), "ctx.Input.Attachments") && accessPath(stripConv(lk.Index)) == "c.paramKey", fmt.Sprintf("%s / lookup#%d", fnKey(att), m), lk.Pos(), "attachment looked up by the rule's paramKey")
+				c.Check(strings.HasSuffix(accessPath(lk.X), "{EntryContext}.Input.Attachments") && accessPath(stripConv(lk.Index)) == "{baseTrafficShapingController}.paramKey", fmt.Sprintf("%s / lookup#%d", fnKey(att), m), lk.Pos(), "attachment looked up by the rule's paramKey")
 			})
 		},
 	})
@@ -350,7 +350,7 @@ func init() {
 			c.Check(a.n == 1 && a.delta == 1, fnKey(a.fn)+" / one-increment", a.pos, "%d atomic adds, delta %d (want one add of +1)", a.n, a.delta)
 			c.Check(b.n == 1 && b.delta == -1, fnKey(b.fn)+" / one-decrement", b.pos, "%d atomic adds, delta %d (want one add of -1)", b.n, b.delta)
 			same := a.ptr == b.ptr && strings.Join(a.guards, ";") == strings.Join(b.guards, ";")
-			wantCell := strings.Contains(a.ptr, ".ConcurrencyCounter.Get(") && strings.Contains(a.ptr, ".ExtractArgs(ctx)")
+			wantCell := strings.Contains(a.ptr, ".ConcurrencyCounter.Get(") && strings.Contains(a.ptr, ".ExtractArgs({EntryContext})")
 			c.Check(same && wantCell, hsPkg+".ConcurrencyStatSlot / siblings", b.pos, "increment and decrement address the same cell under the same guards: cell %q vs %q; guards equal: %v", a.ptr, b.ptr, strings.Join(a.guards, ";") == strings.Join(b.guards, ";"))
 			// the check reads the same cell
 			f := c.P.Func(hsPkg + ".(*baseTrafficShapingController).performCheckingForConcurrencyMetric")
@@ -362,7 +362,7 @@ func init() {
 			for _, ci := range callsIn(f) {
 				if an, ok := atomicFuncName(ci); ok && an == "LoadInt64" {
 					p := accessPath(ci.Common().Args[0])
-					okCell = strings.Contains(p, "c.metric.ConcurrencyCounter.AddIfAbsent(arg,")
+					okCell = strings.Contains(p, ".metric.ConcurrencyCounter.AddIfAbsent({any},")
 				}
 			}
 			c.Check(okCell, fnKey(f)+" / reads-cell", f.Pos(), "the admission test loads the ConcurrencyCounter cell of the checked value")
